@@ -10,7 +10,8 @@ import Bng.Model.PppoeMonitor
     lcp m1 <sid> creq|cack|cnak|term|echo
     pap m1 <sid> good|bad|empty accept|reject|down
     ipcp m1 <sid> creq-ip|creq-dns|creq-none|cack
-    ip m1 <sid> | sweep
+    ip m1 <sid> | sweep            (everything is idle)
+    age <hours> | sweep <hours>    (virtual idle time: the sweep removes the sessions idle for MORE than <hours>)
          => sent=<frames|-> sess=<sid:mac:STATE:auth|unauth:ip|-,…|-> pool=<free>/<allocated>
 -/
 namespace Bng.Drv.PppoeServerDrv
@@ -60,7 +61,7 @@ def parseIn (toks : List String) : Option In :=
         | "cack" => some .cack | _ => none
       pure (.ipcp m sid k)
   | ["ip", m, sid] => do let m ← parseTagged 'm' m; let sid ← sid.toNat?; pure (.ip m sid)
-  | ["sweep"] => some .sweep
+  | ["sweep"] => some (.sweep [])
   | _ => none
 
 /-! ### the string layer of the monitor: the observation line → `PppoeMon.Obs`
@@ -131,6 +132,12 @@ structure St where
   mon : Mon := {}
   /-- Server.Stop() was called: the receive loop is gone, every later frame is inert -/
   stopped : Bool := false
+  /-- the timed layer over the model: hours since the last frame the server accepted on each session
+      (Session.LastActivity is refreshed by handleSession after the owner check; a new session starts at 0) -/
+  idle : AMap Nat Nat := []
+  /-- the same clock kept by the MONITOR from the implementation's observations alone (owner of a session = the MAC
+      its PADS went to): judges which sessions a timed sweep pass may and must remove -/
+  midle : AMap Nat Nat := []
 
 def step (st : St) (toks : List String) (impl : String) : St × LineResult :=
   match toks with
@@ -154,16 +161,54 @@ def step (st : St) (toks : List String) (impl : String) : St × LineResult :=
       | some m => (st, { modelObs := showSrv m [] })
       | none => (st, { modelObs := "badop" })
     else
+    -- the timed layer: `age` moves every live session's last activity back, `sweep <h>` keeps what is not idle past <h>
+    match st.model, toks with
+    | some m, ["age", n] =>
+      match n.toNat? with
+      | some n => ({ st with idle := m.sessions.map fun p => (p.1, (AMap.lookup st.idle p.1).getD 0 + n),
+                             midle := st.mon.prev.map fun x => (x.sid, (AMap.lookup st.midle x.sid).getD 0 + n) },
+                   { modelObs := showSrv m [] })
+      | none => (st, { modelObs := "badop" })
+    | some m, ["sweep", h] =>
+      match h.toNat? with
+      | some h =>
+        let keep := (m.sessions.filter fun p => (AMap.lookup st.idle p.1).getD 0 ≤ h).map (·.1)
+        -- monitor: a session with traffic in the last <h> hours survives the pass, an older one does not
+        let after := (parseObs impl).seen.map (·.sid)
+        let vt := st.mon.prev.flatMap fun x =>
+          let idle := (AMap.lookup st.midle x.sid).getD 0
+          if idle ≤ h && !after.contains x.sid then
+            [("swept-active", "none", s!"session {x.sid} had traffic {idle} h ago but the sweep with timeout {h} h removed it")]
+          else if idle > h && after.contains x.sid then
+            [("kept-idle", "none", s!"session {x.sid} has been idle for {idle} h but survived the sweep with timeout {h} h")]
+          else []
+        let (st', lr) := runOp st m (.sweep keep) impl
+        (st', { lr with viols := lr.viols ++ vt })
+      | none => (st, { modelObs := "badop" })
+    | _, _ =>
     match st.model, parseIn toks with
-    | some m, some i =>
+    | some m, some i => runOp st m i impl
+    | _, _ => (st, { modelObs := "badop" })
+where
+  runOp (st : St) (m : Srv) (i : In) (impl : String) : St × LineResult :=
       let (m', outs) := PppoeServer.step m i
       let (mon', vs) := monitor st.mon i impl
       -- the string layer is outside `monitor_silent_on_model`: cross-check it on the model's own line
       let shown := showSrv m' outs
       let rt := if parseObs shown == obsOf m' outs then [] else
         [("obs-roundtrip", "none", s!"parseObs (showSrv ·) ≠ obsOf · on the model's own observation {shown}")]
-      ({ model := some m', mon := mon' }, { modelObs := shown, viols := vs ++ rt })
-    | _, _ => (st, { modelObs := "badop" })
+      -- Session.LastActivity: refreshed by every session-stage frame that passes the owner check
+      let idle1 := match i with
+        | .lcp m0 sid _ | .pap m0 sid _ _ | .ipcp m0 sid _ | .ip m0 sid =>
+          if (ownerGate m m0 sid).isSome then AMap.insert st.idle sid 0 else st.idle
+        | _ => st.idle
+      let idle' := idle1.filter fun p => (AMap.lookup m'.sessions p.1).isSome
+      let midle1 := match i with
+        | .lcp m0 sid _ | .pap m0 sid _ _ | .ipcp m0 sid _ | .ip m0 sid =>
+          if AMap.lookup st.mon.owner sid = some m0 then AMap.insert st.midle sid 0 else st.midle
+        | _ => st.midle
+      let midle' := midle1.filter fun p => mon'.prev.any (·.sid == p.1)
+      ({ st with model := some m', mon := mon', idle := idle', midle := midle' }, { modelObs := shown, viols := vs ++ rt })
 
 def component : Component := { σ := St, init := {}, step := step }
 
